@@ -373,7 +373,7 @@ META = {
             "design_ref": "DESIGN.md §4 C07", "note": "bounds: k = 3 (quick) / 4 (thorough) events, one partition with 3 replicas starting with the full in-sync set or leader + one follower, four other partitions led by the followers, sequential requests; replay by concrete re-execution (Raft stand-in)", "technique": TECH},
     "C15": {"text": "Symbolic execution of all 16 client API methods of the current source with ACLs on: the policy's answer for the call is a symbolic boolean, back ends are effect recorders, the partition and the consumer group's current subscription are real. On the 'no' side the call must return an error, the effect log must be empty and the existing subscription must still be the active one. The list of methods is fixed in the harness (a new RPC needs a new case).",
             "design_ref": "DESIGN.md §4 C15", "note": "bounds: one request shape per method (fields that could be confused carry different values), partition paused or not, the policy's symbolic answer belongs to the documented (resource, action) of the method and anything else it is asked about has an answer of its own, one two-message PublishAsync session with the answer changing in between; what is not decided: casbin's matching, certificate -> client id, policy reload plumbing", "technique": TECH},
-    "C04": {"text": "Bounded symbolic model checking of the implementation: a batch of publishes with symbolic ack policy, size class, expected offset and encryption outcome runs through the real leader loop and commit loop; replica progress reports (symbolic offsets), ISR shrinks and expansions follow in every order; every ack handed to the ack inbox is recorded and checked against the policy semantics, the stored bytes at the acked offset, and the ISR at the moment the commit loop acted.",
+    "C04": {"text": "Bounded symbolic model checking of the implementation: a batch of publishes with symbolic ack policy, size class, expected offset and encryption outcome runs through the real leader loop and commit loop; replica progress reports (symbolic offsets), ISR shrinks and expansions follow in every order; every ack handed to the ack inbox is recorded and checked against the policy semantics, the stored bytes at the acked offset, and the in-sync set and per-follower stored offsets as the harness itself accounts for them (ISR changes applied, offsets reported), not the leader's bookkeeping.",
             "design_ref": "DESIGN.md §4 C04", "note": "bounds: batch of 1-2 messages, 2 (quick) / 3 (thorough) follow-up actions, replication factor 1 or 3, min ISR 1..RF; action-atomic interleaving; replay by concrete re-execution (stand-ins)", "technique": TECH},
     "C16": {"text": "Bounded symbolic model checking of the implementation: (a) k conditional single-message appends with arbitrary 64-bit expected offsets on a real log with concurrency control: stored iff -1 or exactly the assigned offset, refused appends leave the log unchanged, no two appends with the same expected offset succeed; (b) the leader loop on such a partition with 2-3 publishes arriving together: each is appended on its own, refused ones get INCORRECT_OFFSET and nothing else is disturbed.",
             "design_ref": "DESIGN.md §4 C16", "note": "bounds: 3 (5) appends; 2 (3) publishes in the leader loop; arrival order is the channel order (one receive channel)", "technique": TECH},
@@ -388,13 +388,13 @@ META = {
     "C13": {"text": "Bounded symbolic model checking of the implementation: partition.Subscribe with its real subscription-loop goroutines on a real commit log; the history of group subscribes (two consumer ids, so the same id can return; epochs arbitrary 64-bit values decided by the solver), client departures and message deliveries is explored exhaustively within the bound and compared with a holder model at every quiescent point.",
             "design_ref": "DESIGN.md §4 C13", "note": "bounds: 4 (quick) / 5 (thorough) operations, one consumer group, two consumer ids, run-to-block scheduling between operations", "technique": TECH},
     "C12": {"text": "Bounded symbolic model checking of the implementation: the real consumerGroup code runs on directly constructed groups; consumer ids are symbolic pairwise-distinct strings (every relative order of ids is a solver case), partition counts, subscriptions and the join/leave/stream-delete history are choices explored exhaustively within the bound; after each operation the exactly-one-owner, subscribed-only, balance and two-replica-agreement assertions are checked.",
-            "design_ref": "DESIGN.md §4 C12", "note": "bounds: 3 members, 2 streams with 1-3 and 1-2 partitions, 4 (quick) / 5 (thorough) operations; liveness timers are outside; the delivery order of StreamDeleted relative to later operations is explored by the C06 harness (async=1)", "technique": TECH},
+            "design_ref": "DESIGN.md §4 C12", "note": "bounds: 3 members, 2 streams with 1-3 and 1-2 partitions, 4 (quick) / 5 (thorough) operations; liveness timers: VerifC12Expiry (3 fixed ids, 4 (quick) / 6 (thorough) steps from join / poll / time passes 4 s or 6 s with timeout 10 s / coordinator moves away or back / leave, removal of an expired member may fail once); what the coordinator serves through GetAssignments (current epoch only, coordinator only) is observed after every step; the delivery order of StreamDeleted relative to later operations is explored by the C06 harness (async=1)", "technique": TECH},
     "C03": {"text": "Bounded symbolic model checking of the implementation: (a) the committed reader on the real log for every start offset, HW position and HW step across every segment layout reachable with the stated sizes; (b) a parked reader woken by the HW; (c) thorough tier: appender, cleaner-loop segment roller, HW setter and committed reader as goroutines under an exploring scheduler (pre-emption bound 1-2) with an online monitor: nothing above the HW, each committed message once in order, no lost wake-up, HW monotone, unique consecutive offsets in the log.",
-            "design_ref": "DESIGN.md §4 C03", "note": "bounds: 3-4 messages, segment size 40..200; schedules: 2 appends, 1 roll, 2 HW updates, 1 reader, pre-emption bound 1 (quick) / 2 (thorough), round-robin choice of the next goroutine when the running one blocks; a read-only toggle racing a reader and the HW catching up (VerifC03Readonly); schedule counterexamples are replayed by concrete re-execution in the interpreter (replay_kind=interpreted) plus a native twin driver; more than one reader at a time is outside", "technique": TECH},
+            "design_ref": "DESIGN.md §4 C03", "note": "bounds: 3-4 messages, segment size 40..200; schedules: 2 appends, 1 roll, 2 HW updates, 1 reader, pre-emption bound 1 (quick) / 2 (thorough), round-robin choice of the next goroutine when the running one blocks; a read-only toggle racing a reader and the HW catching up (VerifC03Readonly); two concurrent HW writers with symbolic values, an observer and a committed reader (VerifC03HWWriters); schedule counterexamples are replayed by concrete re-execution in the interpreter (replay_kind=interpreted) plus a native twin driver; more than one reader at a time is outside", "technique": TECH},
     "C05": {"text": "Bounded symbolic model checking of the implementation: the real commit log runs over an in-memory file system whose every mutating effect (file write, mmap store, create, truncate, rename, remove, atomic replace) is counted; the crash point k is a symbolic variable, so within each workload every point between two effects is covered; after the crash the real New() recovers the directory and a full read-back, index point look-ups, HW, epoch history and a further append are checked. Counterexamples are confirmed by writing the crash-time image into a real directory and running the real recovery on it.",
             "design_ref": "DESIGN.md §4 C05", "note": "bounds: workloads of 2-3 appends (+HW checkpoint), Truncate/retention/compaction of 3 (quick) / 4 (thorough) messages in 1-4 segments, one crash per run; process-crash model (returned effects durable, single write/rename atomic); crash during recovery and torn writes outside", "technique": TECH},
     "C01": {"text": "Bounded symbolic model checking of the implementation: the real commit log (New/Append/AppendMessageSet/Truncate/Close+New/readers) runs symbolically over an in-memory file system; operation choice, payload bytes, timestamps, epochs, truncation offsets and the segment-size limit are symbolic; after every step the readable content is compared with an independent model.",
-            "design_ref": "DESIGN.md §4 C01", "note": "bounds: quick <=2 batches of <=2 messages / 2 operation steps / 3 messages with a long-lived reader over 4 key/value shapes (nil|empty|1-2 symbolic bytes); thorough 3 batches / 3 steps with headers / 4 messages over 2 shapes; segment size 1..4096; memFS stands in for the OS; timestamps > 0", "technique": TECH},
+            "design_ref": "DESIGN.md §4 C01", "note": "bounds: quick <=2 batches of <=2 messages / 2 operation steps / 3 messages with a long-lived reader over 4 key/value shapes (nil|empty|1-2 symbolic bytes); 1 (quick) / 2 (thorough) messages with 0-2 headers (names 0-2 symbolic bytes, values nil|empty|1-2 bytes); the mmap index as a unit with 1-4 pre-allocated slots and 2-3 batches of 1-3 entries (growth path); thorough 3 batches / 3 steps with headers / 4 messages over 2 shapes; segment size 1..4096; memFS stands in for the OS; timestamps > 0", "technique": TECH},
     "C08": {"text": "Bounded symbolic model checking of the implementation: real compaction on a real log over memFS for every key pattern (nil/empty/1 symbolic byte), every segment layout reachable with the stated sizes, every HW, 1-2 scan workers, an append racing the compaction, and a repeated Clean; forward and reverse read-back from every start compared with an independently computed survivor set.",
             "design_ref": "DESIGN.md §4 C08", "note": "bounds: 3 (quick) / 4 (thorough) messages + 1 concurrent append, segment size 40..200; scan workers run-to-block; compaction racing Truncate outside", "technique": TECH},
     "C09": {"text": "Bounded symbolic model checking of the implementation: real retention cleaning on a real log over memFS with symbolic byte/message/age limits, symbolic clock and an append racing the clean; suffix-only, newest kept, minimality, every limit afterwards, files removed, contiguous read-back, idempotence.",
